@@ -929,6 +929,7 @@ class Emitter:
     def write_double_quoted(self, text, split=True):
         self.write_indicator('"', True)
         start = end = 0
+        folded = False
         while end <= len(text):
             ch = None
             if end < len(text):
@@ -945,7 +946,9 @@ class Emitter:
                         data = data.encode(self.encoding)
                     self.stream.write(data)
                     start = end
+                    folded = False
                 if ch is not None:
+                    folded = False
                     if ch in self.ESCAPE_REPLACEMENTS:
                         data = '\\'+self.ESCAPE_REPLACEMENTS[ch]
                     elif ch <= '\xFF':
@@ -960,7 +963,8 @@ class Emitter:
                     self.stream.write(data)
                     start = end+1
             if 0 < end < len(text)-1 and (ch == ' ' or start >= end)    \
-                    and self.column+(end-start) > self.best_width and split:
+                    and self.column+(end-start) > self.best_width and split \
+                    and not (folded and start >= end):
                 data = text[start:end]+'\\'
                 if start < end:
                     start = end
@@ -969,6 +973,7 @@ class Emitter:
                     data = data.encode(self.encoding)
                 self.stream.write(data)
                 self.write_indent()
+                folded = True
                 self.whitespace = False
                 self.indention = False
                 if text[start] == ' ':
